@@ -453,7 +453,10 @@ NonCanon ==
            b \in {<<U8(1), I32(2), Raw("x")>>, <<U8(1), I32(0)>>, <<U8(1), I32(-1)>>, <<U8(2), I32(0)>>, <<U8(3), I32(2), Raw("x")>>, <<U8(0)>>,
                   <<U8(1), I32(5), I32(1), Raw("a")>>, <<U8(2), I32(8), I32(4), Raw("xml")>>, <<U8(1), I32(4), I32(-1)>>}}
   \cup {[ty |-> "Variant", s |-> <<U8(22)>> \o Enc(UnknownId) \o <<U8(1), I32(2), Raw("x")>>],
-        [ty |-> "DataValue", s |-> <<U8(1), U8(22)>> \o Enc(UnknownId) \o <<U8(1), I32(2), Raw("x")>>]}
+        [ty |-> "DataValue", s |-> <<U8(1), U8(22)>> \o Enc(UnknownId) \o <<U8(1), I32(2), Raw("x")>>],
+        \* a scalar Variant with the dimensions flag, followed by another field
+        [ty |-> "DataValue", s |-> <<U8(3), U8(1 + 64), U8(1), T("u32", 0, "2147549184")>>],
+        [ty |-> "DataValue", s |-> <<U8(3), U8(64), T("u32", 0, "2147549184")>>]}
   \* masks with unused bits
   \cup {[ty |-> "LocalizedText", s |-> <<U8(m)>> \o Cat([i \in 1..n |-> EncStr("a")])] : m \in {4, 7, 255}, n \in 0..2}
   \cup {[ty |-> "DataValue", s |-> <<U8(m)>>] : m \in {64, 128, 192}}
@@ -483,22 +486,40 @@ HostileBases == {VariantV("Int32", "arr", <<S("Int32", "-1"), S("Int32", "0")>>,
                  VariantV("ExtensionObject", "scalar", <<XObjV("bin", AnonTokenId, "a")>>, <<>>),
                  VariantV("DataValue", "arr", <<DataOfMask(1, VariantV("Byte", "arr", <<S("Byte", "1")>>, <<>>))>>, <<>>)}
 IsLenTok(tk) == tk.k = "i32" /\ tk.a = ""
-Hostile == UNION {{[ty |-> "Variant", base |-> Enc(b), pos |-> i, s |-> SetAt(Enc(b), i, I32(h))] :
+\* which field of the outer Variant a token position is
+What(b, i) == IF b.k = "arr" /\ i = 2 THEN "array-length"
+              ELSE IF Len(b.dims) > 1 /\ i = Len(Enc(b)) - Len(b.dims) THEN "dimension-count"
+              ELSE IF Len(b.dims) > 1 /\ i > Len(Enc(b)) - Len(b.dims) THEN "dimension"
+              ELSE "nested-length"
+Hostile == UNION {{[ty |-> "Variant", what |-> What(b, i), pos |-> i, s |-> SetAt(Enc(b), i, I32(h))] :
                       i \in {j \in 1..Len(Enc(b)) : IsLenTok(Enc(b)[j])}, h \in HostileLens} : b \in HostileBases}
-           \cup UNION {{[ty |-> "Variant", base |-> Enc(b), pos |-> i, s |-> SubSeq(Enc(b), 1, i)] : i \in 0..(Len(Enc(b)) - 1)} : b \in HostileBases}
+           \cup UNION {{[ty |-> "Variant", what |-> "truncated", pos |-> i, s |-> SubSeq(Enc(b), 1, i)] : i \in 0..(Len(Enc(b)) - 1)} : b \in HostileBases}
+\* nesting: n times the prefix of a value that contains a value of its own kind, then the innermost value.
+\* A "rep" token stands for n copies of the named prefix (18 = Variant holding a Variant, 40 = DiagnosticInfo with an
+\* inner DiagnosticInfo, 0117 = DataValue holding a Variant holding a DataValue).
+MaxNesting == 100
+NestDepths == {1, 100, 101, 100000, 2000000}
+Nested == {[ty |-> "Variant", what |-> "nesting-variant", pos |-> n, s |-> <<T("rep", n, "18"), U8(0)>>] : n \in NestDepths}
+     \cup {[ty |-> "DiagnosticInfo", what |-> "nesting-diagnosticinfo", pos |-> n, s |-> <<T("rep", n, "40"), U8(0)>>] : n \in NestDepths}
+     \cup {[ty |-> "DataValue", what |-> "nesting-datavalue-variant", pos |-> n, s |-> <<T("rep", n, "0117"), U8(0)>>] : n \in NestDepths}
+\* contract: nesting deeper than MaxNesting is refused; nothing is allocated for refused input
+DecNested(x) == IF x.pos > MaxNesting THEN Fail ELSE [ok |-> TRUE, val |-> NoVal, rest |-> <<>>, alloc |-> 16 * x.pos]
 \* dimension vectors whose product overflows / is zero / negative, with zero or two elements
-HostileDims == {[ty |-> "Variant", base |-> <<>>, pos |-> 0,
+HostileDims == {[ty |-> "Variant", what |-> "dimensions", pos |-> 0,
                  s |-> <<U8(6 + 128 + 64), I32(n)>> \o [i \in 1..n |-> T("i32", 0, "-1")] \o <<I32(2), I32(d1), I32(d2)>>] :
                    n \in {-1, 0, 2}, d1 \in {-2147483647 - 1, -1, 0, 1, 2, 65536, 2147483647}, d2 \in {-1, 0, 1, 2, 65536, 2147483647}}
-               \cup {[ty |-> "Variant", base |-> <<>>, pos |-> 0, s |-> <<U8(6 + 128 + 64), I32(0), I32(nd)>>] : nd \in HostileLens}
-InitHostile == \E x \in Hostile \cup HostileDims : c = [kind |-> "hostile", ty |-> x.ty, pos |-> x.pos, s |-> x.s, dec |-> Dec(x.ty, x.s)]
+               \cup {[ty |-> "Variant", what |-> "dimension-count", pos |-> 0, s |-> <<U8(6 + 128 + 64), I32(0), I32(nd)>>] : nd \in HostileLens}
+               \cup {[ty |-> "Variant", what |-> "dimensions", pos |-> 0, s |-> <<U8(6 + 128 + 64), I32(0), I32(3), I32(65536), I32(65536), I32(d3)>>] : d3 \in {1, 65536}}
+InitHostile == \/ \E x \in Hostile \cup HostileDims : c = [kind |-> "hostile", ty |-> x.ty, what |-> x.what, pos |-> x.pos, s |-> x.s, dec |-> Dec(x.ty, x.s)]
+               \/ \E x \in Nested : c = [kind |-> "hostile", ty |-> x.ty, what |-> x.what, pos |-> x.pos, s |-> x.s, dec |-> DecNested(x)]
 
 \* allocation bound of the contract decoder: storage reserved never exceeds 16 bytes per input byte
-InvSafe == c.kind = "hostile" => (c.dec.alloc >= 0 /\ c.dec.alloc <= 16 * Size(c.s))
+SizeOf(s) == IF s # <<>> /\ s[1].k = "rep" THEN s[1].n + 1 ELSE Size(s)
+InvSafe == c.kind = "hostile" => (c.dec.alloc >= 0 /\ c.dec.alloc <= 16 * SizeOf(c.s))
 
 Row == CASE c.kind = "value" -> [kind |-> "value", v |-> c.v, toks |-> Enc(c.v), norm |-> Norm(c.v)]
          [] c.kind = "stream" -> [kind |-> "stream", ty |-> c.ty, canon |-> c.canon, toks |-> c.s, ok |-> c.dec.ok,
                                   val |-> c.dec.val, devdrop |-> (c.dec.ok /\ c.dec.val.t = "ExtensionObject" /\ c.dec.val.xk = "unk")]
-         [] c.kind = "hostile" -> [kind |-> "hostile", ty |-> c.ty, pos |-> c.pos, toks |-> c.s, ok |-> c.dec.ok]
+         [] c.kind = "hostile" -> [kind |-> "hostile", ty |-> c.ty, what |-> c.what, pos |-> c.pos, toks |-> c.s, ok |-> c.dec.ok]
 InvEmit == Emit => PrintT("ROW " \o ToJson(Row))
 =============================================================================
